@@ -28,6 +28,7 @@ CONSTANTS
   EqWrongs = {}
   CallKinds = {}
   Laws = {}
+  TSources = {}
   MaxCalls = 0
 INVARIANT Verdict
 INVARIANT RefusedOnlyIfWrongDimension
